@@ -55,11 +55,21 @@ func numVal(t *rapid.T, kind string, label string) gen.Val {
 	case "float":
 		return gen.Float(float64(rapid.IntRange(-8, 24).Draw(t, label)) / 4)
 	default:
-		switch rapid.IntRange(0, 3).Draw(t, label+"k") {
+		switch rapid.IntRange(0, 7).Draw(t, label+"k") {
 		case 0:
 			return gen.Int(int64(rapid.IntRange(-3, 8).Draw(t, label)))
 		case 1:
 			return gen.Int64(int64(rapid.IntRange(-3, 8).Draw(t, label)))
+		case 2:
+			// other Go widths, and unsigned values that do not fit an int64
+			switch rapid.IntRange(3, 5).Draw(t, label+"w") {
+			case 3:
+				return gen.Val{K: "uint32", U: uint64(rapid.IntRange(0, 8).Draw(t, label+"u"))}
+			case 4:
+				return gen.Val{K: "int8", I: int64(rapid.IntRange(-3, 8).Draw(t, label))}
+			default:
+				return gen.Val{K: "float32", F: strconv.FormatFloat(float64(rapid.IntRange(-8, 24).Draw(t, label))/4, 'g', -1, 64)}
+			}
 		default:
 			return gen.Float(float64(rapid.IntRange(-8, 24).Draw(t, label)) / 4)
 		}
@@ -202,6 +212,17 @@ func genRow(t *rapid.T, id int, solid map[string]bool) gen.Row {
 		}
 		r[col] = v
 	}
+	// big: an unsigned value beyond int64 (never referenced by WHERE: comparing such a value is a recorded finding)
+	switch x := rapid.IntRange(0, 7).Draw(t, "big"); {
+	case x < 3:
+		r["big"] = gen.Val{K: "uint64", U: 1<<63 + uint64(rapid.IntRange(0, 4096).Draw(t, "bigu"))}
+	case x < 5:
+		r["big"] = gen.Val{K: "uint64", U: ^uint64(0) - uint64(rapid.IntRange(0, 4096).Draw(t, "bigu"))}
+	case x < 6:
+		r["big"] = gen.Val{K: "uint", U: 1<<63 + uint64(rapid.IntRange(0, 4096).Draw(t, "bigu"))}
+	case x < 7:
+		r["big"] = gen.Nil()
+	}
 	return r
 }
 
@@ -240,6 +261,9 @@ func pick(t *rapid.T, pool []string, label string) string {
 }
 
 func genOperandPath(t *rapid.T) Path {
+	if rapid.IntRange(0, 5).Draw(t, "bigoperand") == 0 {
+		return parsePath("big") // unsigned values that do not fit an int64: only ever an arithmetic operand
+	}
 	return parsePath(pick(t, numPaths, "numpath"))
 }
 
@@ -271,7 +295,45 @@ func genArith(t *rapid.T) *Arith {
 			a.Args = append(a.Args, Operand{Path: genOperandPath(t)})
 		}
 	}
+	if a.usesBig() && pbt.Open("C05", "unsigned-beyond-int64-exprlang") {
+		// known finding: an item with parentheses, brackets, quotes or a nested path goes to expr-lang, whose integer
+		// arithmetic wraps such values; keep the item one the engine's own evaluator handles
+		a.Paren = 0
+		for i, o := range a.Args {
+			if len(o.Path) > 0 && !flatPath(o.Path) {
+				a.Args[i] = Operand{Num: "2"}
+			}
+		}
+	}
 	return a
+}
+
+// flatPath: a plain top-level column.
+func flatPath(p Path) bool { return len(p) == 1 && !strings.ContainsAny(p.String(), ".[") }
+
+// allFlat: every column operand is a plain top-level column.
+func (a *Arith) allFlat() bool {
+	for _, o := range a.Args {
+		if len(o.Path) > 0 && !flatPath(o.Path) {
+			return false
+		}
+	}
+	return true
+}
+
+// usesBig: some operand is the column big (unsigned values beyond int64).
+func (a *Arith) usesBig() bool {
+	for _, o := range a.Args {
+		if len(o.Path) == 1 && o.Path[0].N == "big" {
+			return true
+		}
+	}
+	return false
+}
+
+// hugeUnsigned: a uint / uint64 value that does not fit an int64.
+func hugeUnsigned(v gen.Val) bool {
+	return (v.K == "uint64" || v.K == "uint") && v.U > 1<<63-1
 }
 
 var aliasPool = []string{"x1", "x2", "x3", "x4", "x5", "x6", "x7", "x8", "res_1", "Out", "val"}
@@ -1118,6 +1180,35 @@ func exprLike(it Item) bool {
 // features names the known-finding shapes a case exhibits.
 func features(c Case) []string {
 	var f []string
+	// an unsigned value beyond int64 that reaches expr-lang: as operand of a parenthesised arithmetic item, or through
+	// a WHERE comparison
+	exprlang := false
+	for _, it := range c.Items {
+		if it.Kind == "arith" && it.Ar != nil && (it.Ar.Paren != 0 || !it.Ar.allFlat()) {
+			for _, o := range it.Ar.Args {
+				if len(o.Path) == 0 {
+					continue
+				}
+				for _, r := range c.Rows {
+					if v, ok := resolve(r, o.Path); ok && hugeUnsigned(v) {
+						exprlang = true
+					}
+				}
+			}
+		}
+	}
+	if c.Where != nil {
+		c.Where.leaves(func(l Pred) {
+			for _, r := range c.Rows {
+				if v, ok := resolve(r, l.Path); ok && hugeUnsigned(v) {
+					exprlang = true
+				}
+			}
+		})
+	}
+	if exprlang {
+		f = append(f, "unsigned-beyond-int64-exprlang")
+	}
 	hasStar, hasCol := false, false
 	for _, it := range c.Items {
 		switch it.Kind {
